@@ -74,6 +74,9 @@ def gas_pool():
     add([("C", 1), ("H", 3), ("O", 1), ("H", 1)]); add([("C", 1), ("H", 3), ("O", 1), ("H", 2)], 1)
     add([("H", 1), ("C", 1), ("O", 1), ("O", 1), ("H", 1)]); add([("C", 1), ("H", 3), ("C", 1), ("N", 1)])
     add([("C", 1), ("H", 3), ("O", 1), ("C", 1), ("H", 3)])
+    # names that differ from another species by letter case only (para-H2 `pH2` vs phosphino `PH2`)
+    add([("P", 1)]); add([("P", 1), ("H", 1)]); add([("P", 1), ("H", 2)]); add([("P", 1), ("H", 2)], 1); add([("P", 1), ("H", 3)], 1)
+    add([("H", 3)], 1, label="p"); add([("H", 3)], 1, label="o")
     # long chains: two-digit counts
     add([("C", 10)]); add([("C", 11)]); add([("C", 12)], 1); add([("H", 1), ("C", 11), ("N", 1)]); add([("C", 11), ("H", 1)])
     add([("C", 6), ("H", 14)]); add([("C", 24), ("H", 12)])
